@@ -350,6 +350,13 @@ fn c01_ctct(o: &mut Out, r: &mut Rng, reps: usize) {
         let f = ctct_st(r, a, b);
         o.op("ctct.false-stmt", &format!("mprove R ctct {} {} {}", f.mwit(&Scalar::from(a)), nonces(r, 3), zeros(4)));
         o.op("ctct.false-stmt", &format!("mprove R ctct {} {} {}", f.mwit(&Scalar::from(b)), nonces(r, 3), zeros(4)));
+        // the same false statement with z_x shifted *after* c is known so that the G-direction residuals of the two
+        // plaintext equations, D*G and (D + c*m)*G, cancel under weights in ratio 1 : rho for rho in {c, -c, c^2, 1/c, 1}:
+        // a verifier whose weights have a ratio predictable from c accepts one of these
+        let m = Scalar::from(a) - Scalar::from(b);
+        for q in ["q:c", "q:nc", "q:cc", "q:ci", "q:one"] {
+            o.op("ctct.ratio-forgery", &format!("mprove F:352={}*{} ctct {} {} {}", hs(&-m), q, f.mwit(&Scalar::from(a)), nonces(r, 3), zeros(4)));
+        }
         // witness wrong in exactly one relation: secret key / opening / second handle under another key
         let mut g = ctct_st(r, a, a);
         g.k1.s = rand_nonzero(r);
@@ -396,6 +403,10 @@ fn c01_ctcmt(o: &mut Out, r: &mut Rng, reps: usize) {
         let f = ctcmt_st(r, a, b);
         o.op("ctcmt.false-stmt", &format!("mprove R ctcmt {} {} {}", f.mwit(&Scalar::from(a)), nonces(r, 3), zeros(3)));
         o.op("ctcmt.false-stmt", &format!("mprove R ctcmt {} {} {}", f.mwit(&Scalar::from(b)), nonces(r, 3), zeros(3)));
+        let m = Scalar::from(a) - Scalar::from(b);
+        for q in ["q:c", "q:nc", "q:cc", "q:ci", "q:one"] {
+            o.op("ctcmt.ratio-forgery", &format!("mprove F:256={}*{} ctcmt {} {} {}", hs(&-m), q, f.mwit(&Scalar::from(a)), nonces(r, 3), zeros(3)));
+        }
         let mut g = ctcmt_st(r, a, a);
         g.k.s = rand_nonzero(r);
         o.op("ctcmt.wrong-key", &format!("mprove R ctcmt {} {} {}", g.mwit(&x), nonces(r, 3), zeros(3)));
@@ -694,6 +705,16 @@ pub fn gen_c03(o: &mut Out, tier: &str, seed: u64) {
                 let s = Scalar::from_bytes_mod_order(m[f..f + 32].try_into().unwrap()) + Scalar::ONE;
                 m[f..f + 32].copy_from_slice(s.as_bytes());
                 o.op_exp("cap.perturbed-scalar", "R", &format!("verify cap {}", hex(&m)));
+            }
+            // responses shifted after c is known: residuals on (delta, claimed), (max, delta), (max, claimed) in ratio
+            // 1 : rho(c): accepted by a verifier whose batching weights have a ratio predictable from c
+            let (one, neg) = (hs(&Scalar::ONE), hs(&-Scalar::ONE));
+            for (i, j) in [(296usize, 328usize), (136, 296), (136, 328)] {
+                for rho in ["c", "cc", "ci", "one"] {
+                    o.op("cap.ratio-forgery", &format!("forge R cap {} {}={}*{},{}={}*one", hex(&bytes), i, neg, rho, j, one));
+                    o.op("cap.ratio-forgery", &format!("forge R cap {} {}={}*one,{}={}*{}", hex(&bytes), i, one, j, neg, rho));
+                    o.op("cap.ratio-forgery", &format!("forge R cap {} {}={}*{},{}={}*one", hex(&bytes), i, one, rho, j, one));
+                }
             }
             // max_value changed under an accepted proof
             for m8 in [0u64, 1, st.max.wrapping_add(1), st.max.wrapping_sub(1), u64::MAX] {
